@@ -136,6 +136,9 @@ def main(args, seed, repo, jobs, tier):
         names = [a.upper() for a in args[1:]] or props.CLAIMED
         names = [n for n in names if _built(n)]
         rc = max(rc, determinism(names, seed, repo, jobs, 200 if tier == 'quick' else 2000))
+    if what == 'soundness':
+        from . import mutants
+        rc = max(rc, mutants.run_benign(args[1:], seed, repo, jobs))
     if what == 'sensitivity':
         from . import mutants
         rc = max(rc, mutants.run(args[1:], seed, repo, jobs))
